@@ -718,3 +718,75 @@ Proof.
     pose proof (ei_canon dbg c mask fuel s1 o s' CS1 H) as R. unfold canon_stack in R. now rewrite CC in R.
 Qed.
 End Canon2.
+
+(* ---------------------------------------------------------------- max_iterations = u32::MAX does not bound anything *)
+(* DW_OP_skip -3: an expression that jumps to itself *)
+Definition loop_prog : list byte := [x2f; xfd; xff].
+Definition loop_cfg : cfg := mkCfg (mkEnc 8 false 4 false) None (Some 4294967295) None None None None None.
+Definition loop_state (k m : N) : st := mkSt loop_prog loop_prog [] [] [] k None m m.
+Definition loop_mask : N := 18446744073709551615.
+
+Lemma loop_eoo dbg k m it :
+  evaluate_one_operation no_fops dbg loop_cfg loop_mask (set_iter (loop_state k m) it) =
+  Ok (RIncomplete, loop_state it (m + 1)).
+Proof. reflexivity. Qed.
+
+Lemma loop_step dbg fuel k m : k < 4294967295 ->
+  evaluate_internal no_fops (S fuel) dbg loop_cfg loop_mask (loop_state k m) =
+  evaluate_internal no_fops fuel dbg loop_cfg loop_mask (loop_state (k + 1) (m + 1)).
+Proof.
+  intros H. cbn [evaluate_internal].
+  change (end_of_expression (loop_state k m)) with (false, loop_state k m).
+  cbv iota beta. change (s_iter (loop_state k m)) with k. rewrite chk_add_iter by lia. cbn [bind].
+  change (c_max loop_cfg) with (Some 4294967295).
+  destruct (4294967295 <? k + 1) eqn:E; [lia|].
+  rewrite loop_eoo. cbn [bind]. reflexivity.
+Qed.
+
+Lemma loop_many dbg fuel : forall j k m, k + N.of_nat j <= 4294967295 ->
+  evaluate_internal no_fops (j + fuel) dbg loop_cfg loop_mask (loop_state k m) =
+  evaluate_internal no_fops fuel dbg loop_cfg loop_mask (loop_state (k + N.of_nat j) (m + N.of_nat j)).
+Proof.
+  induction j as [|j IH]; intros k m H.
+  - cbn [Nat.add N.of_nat]. now rewrite !N.add_0_r.
+  - cbn [Nat.add]. rewrite loop_step by lia. rewrite IH by lia. f_equal. f_equal; lia.
+Qed.
+
+(* debug build: the 2^32-th iteration overflows the u32 counter *)
+Lemma loop_debug_panics fuel m :
+  evaluate_internal no_fops (S fuel) true loop_cfg loop_mask (loop_state 4294967295 m) = Panic.
+Proof. reflexivity. Qed.
+
+(* release build: the counter wraps to 0 and the evaluation continues: no fuel is ever enough *)
+Lemma loop_release_forever : forall fuel k m, k <= 4294967295 ->
+  evaluate_internal no_fops fuel false loop_cfg loop_mask (loop_state k m) = OutOfFuel.
+Proof.
+  induction fuel as [|fuel IH]; intros k m H; [reflexivity|].
+  destruct (N.eq_dec k 4294967295) as [->|NE].
+  - cbn [evaluate_internal].
+    change (end_of_expression (loop_state 4294967295 m)) with (false, loop_state 4294967295 m).
+    cbv iota beta. change (chk_add 32 false (s_iter (loop_state 4294967295 m)) 1) with (@Ok N 0). cbn [bind].
+    change (c_max loop_cfg) with (Some 4294967295). change (4294967295 <? 0) with false. cbv iota.
+    rewrite loop_eoo. cbn [bind].
+    change (end_of_expression (loop_state 0 (m + 1))) with (false, loop_state 0 (m + 1)). cbv iota beta. cbn [andb].
+    apply IH. lia.
+  - rewrite loop_step by lia. apply IH. lia.
+Qed.
+
+Lemma iteration_limit_u32_max_lemma :
+  c_max loop_cfg = Some 4294967295 /\
+  (exists fuel, run no_fops fuel true loop_cfg loop_prog [] = ([], FPanic)) /\
+  (forall fuel, run no_fops fuel false loop_cfg loop_prog [] = ([], FOutOfFuel)).
+Proof.
+  split; [reflexivity|]. split.
+  - exists (N.to_nat 4294967295 + 1)%nat.
+    unfold run. change (new_mask true (e_asz (c_enc loop_cfg))) with (@Ok N loop_mask). cbv iota beta.
+    unfold evaluate. change (c_init loop_cfg) with (@None N). cbn [bind].
+    change (initial_state loop_prog) with (loop_state 0 0).
+    rewrite loop_many by (rewrite N2Nat.id; lia). rewrite N2Nat.id. cbn [N.add].
+    change (1%nat) with (S 0). rewrite loop_debug_panics. reflexivity.
+  - intros fuel. unfold run. change (new_mask false (e_asz (c_enc loop_cfg))) with (@Ok N loop_mask). cbv iota beta.
+    unfold evaluate. change (c_init loop_cfg) with (@None N). cbn [bind].
+    change (initial_state loop_prog) with (loop_state 0 0).
+    rewrite loop_release_forever by lia. reflexivity.
+Qed.
